@@ -150,6 +150,12 @@ def atolUnit (fixed : Bool) (act des0 : TUnit K) : Tol K → TUnit K
   | .bare _ => bareAtolUnit fixed act des0
   | .qty _ u => u
 
+/-- the number `rtol` is used by: `unyt_array(rtol).to_value("dimensionless")` (a bare number is
+    already dimensionless) -/
+def rtolNumber : Tol K → K
+  | .bare x => x
+  | .qty x u => convVal u nullUnit x
+
 /-- the dimension of `unyt_array(rtol).units` -/
 def rtolDim : Tol K → Dim
   | .bare _ => Dim.one
@@ -158,15 +164,18 @@ def rtolDim : Tol K → Dim
 /-- the number `atol` becomes in `actual`'s unit; `none` when the conversion is refused.
     Pinned commit, bare: `unyt_quantity(atol, des.units).in_units(act.units)` with `des` already in
     `actual`'s unit (an identity conversion).  Repaired code, bare: a *difference* in `desired`'s
-    own unit, i.e. scaled by `desired_units.base_value / act.units.base_value` (no offset — the
-    repair that keeps unyt's own `test_degC_with_SIprefixes` passing).  Quantity: `in_units`. -/
+    own unit: `atol * (one - zero)` where `one`, `zero` are 1 and 0 `desired`-units converted to
+    `actual`'s unit (the offset cancels — the plain `unyt_quantity(atol, desired_units)` would turn
+    a bare 0 in m°C into a point temperature).  Quantity: `in_units`. -/
 def atolInActualUnit (fixed : Bool) (act des0 : TUnit K) : Tol K → Option K
-  | .bare x => if fixed then some (x * (des0.scale / act.scale)) else some (convVal act act x)
+  | .bare x =>
+    if fixed then some (x * (convVal des0 act 1 - convVal des0 act 0))
+    else some (convVal act act x)
   | .qty x u => if u.dim != act.dim then none else some (convVal u act x)
 
 /-- `allclose_units(actual, desired, rtol, atol)` on two `unyt_array`s, in the order the code
     proceeds: convert `desired` to `actual`'s unit (failure → `False`); `rtol` must be
-    dimensionless (else `RuntimeError`) and is then used by its bare value; `atol` is brought to
+    dimensionless (else `RuntimeError`) and is then used by its dimensionless value; `atol` is brought to
     `actual`'s unit (`atolInActualUnit`, failure → `False`); `numpy.allclose` on the stripped
     numbers -/
 def allcloseQ (fixed : Bool) (act des0 : Qty K) (rtol atol : Tol K) : Except Err Bool :=
@@ -177,7 +186,7 @@ def allcloseQ (fixed : Bool) (act des0 : Qty K) (rtol atol : Tol K) : Except Err
     else
       match atolInActualUnit fixed act.unit des0.unit atol with
       | none => .ok false
-      | some av => npAllclose rtol.value av act.vals des
+      | some av => npAllclose (rtolNumber rtol) av act.vals des
 
 /-- `q.in_units(u)` for a commensurable `u`: the same quantity written in another unit -/
 def Qty.reexpress (q : Qty K) (u : TUnit K) : Qty K :=
